@@ -141,14 +141,18 @@ def lean_term_expr(name: str, c: dict) -> str | None:
     if name == "prod_dim":
         return f"{P}prod_dim.term {r} {li(c['dim'])} {lb(c['keep'])}"
     if name == "cumsum":
-        return f"{P}cumsum.term {r} {li(c['dim'])}"
+        cast = "none" if c.get("cast") is None else f"(some {c['cast']})"
+        return f"{P}cumsum.term {r} {li(c['dim'])} {cast}"
     if name.startswith("avg_pool"):
         return f"{P}avg_pool.term {c['k']} {r} {lil(c['ks'])} {lil(c['st'])} {lil(c['pad'])} {lb(c['ceil'])} {lb(c['cip'])}"
     if name.startswith("max_pool"):
         if c.get("wi"):
             return f"{P}max_pool.termWithIndices {c['k']} {lil(c['ks'])} {lil(c['st'])} {lil(c['pad'])} {lil(c['dil'])} {lb(c['ceil'])}"
         return f"{P}max_pool.term {c['k']} {r} {lil(c['ks'])} {lil(c['st'])} {lil(c['pad'])} {lil(c['dil'])} {lb(c['ceil'])}"
-    if name in ("convolution", "conv2d"):
+    if name in ("conv1d", "conv2d", "conv3d"):
+        return (f"{P}convnd.term {lshape(c['shape'])} {lshape(c['w'])} {lb(c['bias'])} {lints(c['st'])} {lints(c['pad'])} "
+                f"{lints(c['dil'])} {c['g']}")
+    if name == "convolution":
         return (f"{P}conv.term {lshape(c['shape'])} {lshape(c['w'])} {lil(c['st'])} {lil(c['pad'])} {lil(c['dil'])} "
                 f"{lb(c['tr'])} {lints(c['op'])} {c['g']}")
     if name in ("add", "sub", "add_scalar", "sub_scalar"):
@@ -178,11 +182,21 @@ def lean_term_expr(name: str, c: dict) -> str | None:
     if name == "embedding":
         return f"{P}embedding.term"
     if name in ("scatter_src", "scatter_add"):
-        return f"{P}scatter.term {lb(name == 'scatter_add')} {len(c['idx_shape'])} {len(c['src'])} {li(c['dim'])}"
+        return f"{P}scatter.term {lb(name == 'scatter_add')} {lshape(c['idx_shape'])} {lshape(c['src'])} {li(c['dim'])}"
     if name == "pixel_shuffle":
-        return f"{P}pixel_shuffle.term {r} {li(c['factor'])}"
+        return f"{P}pixel_shuffle.term {lshape(c['shape'])} {li(c['factor'])}"
     if name == "pixel_unshuffle":
         return f"{P}pixel_unshuffle.term {li(c['factor'])}"
+    if name in ("softmax", "_softmax", "_log_softmax"):
+        kind = {"softmax": 0, "_softmax": 1, "_log_softmax": 2}[name]
+        co = "none" if c.get("cast_out") is None else f"(some {c['cast_out']})"
+        return f"{P}softmax.term {kind} {r} {li(c['dim'])} {lb(c['cast_in'])} {co}"
+    if name == "linear":
+        return f"{P}linear.term {r} {len(c['w'])} {lb(c['bias'] is not None)}"
+    if name == "vector_norm":
+        o = c["ord"]
+        lo = "OV.C08.vector_norm.Ord.posInf" if o == "inf" else "OV.C08.vector_norm.Ord.negInf" if o == "-inf" else f"(OV.C08.vector_norm.Ord.int {li(o)})"
+        return f"{P}vector_norm.term {r} {lo} {loptl(c['dims'])} {lb(c['keep'])}"
     if name == "gather":
         return f"{P}gather.term {r} {len(c['idx_shape'])} {li(c['dim'])}"
     if name == "repeat_interleave":
